@@ -26,6 +26,8 @@ From PV Require Import Base.Str Base.Value Resolver.Consts Resolver.Resolve Robu
 From PV Require Import Base.WireFacts.
 From PV Require Typed.Schema Typed.Leaves Typed.Roundtrip Typed.RoundtripRun Typed.RoundtripExamples.
 From PV Require Import Typed.ParseClean Typed.ParseCost.
+From PV Require Resolver.Text.
+From PV Require Import Robust.ValidatorLaws.
 From PVGen Require Schema.
 Import ListNotations.
 Local Open Scope N_scope.
@@ -331,4 +333,198 @@ Example C19_ex_cost_magnitude_free :
              (VList [VStr [48;46;48;46;48;46;48;47;48]%N; VStr [49;48;46;48;46;48;46;48;47;56]%N]) =
     (Ok (Roundtrip.XList [Roundtrip.XLeaf (VTyped KNet4 [48;46;48;46;48;46;48;47;48]%N);
                           Roundtrip.XLeaf (VTyped KNet4 [49;48;46;48;46;48;46;48;47;56]%N)]), 3%nat).
+Proof. repeat split; vm_compute; reflexivity. Qed.
+
+(* =====================================================================================================
+   ALGEBRAIC LAWS of the custom validators (Robust/ValidatorLaws.v) *)
+Definition k_FAV_colon : str := [70;111;114;65;108;108;86;97;108;117;101;115;58;83;116;114;105;110;103;76;105;107;101]%N. (* ForAllValues:StringLike *)
+Definition k_FAV : str := [70;111;114;65;108;108;86;97;108;117;101;115;83;116;114;105;110;103;76;105;107;101]%N.             (* ForAllValuesStringLike *)
+Definition k_StringEquals : str := [83;116;114;105;110;103;69;113;117;97;108;115]%N.
+
+(* every refusal of every custom validator is a ValueError (the per-validator reading of C19_validators_clean);
+   remove_colon and the tag coercion refuse nothing *)
+Theorem C19_validators_refuse_with_value_error :
+  forall (strict : bool) (modelled : list str) (cast : value -> value) (loads : str -> option value) (float_ok : str -> bool)
+         (v : value) (e : err),
+    (check_type strict modelled v = Err e -> e = EValue) /\
+    (validate_binary v = Err e -> e = EValue) /\
+    (semi_strict_bool v = Err e -> e = EValue) /\
+    (check_fn_dict v = Err e -> e = EValue) /\
+    (generic_casting cast v = Err e -> e = EValue) /\
+    (json_prepass loads v = Err e -> e = EValue) /\
+    (not_from_numbers float_ok v = Err e -> e = EValue) /\
+    (not_from_booleans v = Err e -> e = EValue) /\
+    (effect_validator v = Err e -> e = EValue) /\
+    remove_colon v <> Err e /\
+    tag_coerce v <> Err e.
+Proof. exact validators_refuse_with_value_error. Qed.
+Print Assumptions C19_validators_refuse_with_value_error.
+Example C19_ex_refusals :
+  check_type true [k_Type] (VStr k_Type) = Err EValue /\ validate_binary (VInt 5) = Err EValue /\
+  semi_strict_bool (VInt 1) = Err EValue /\ check_fn_dict (VDict []) = Err EValue /\
+  generic_casting (fun x => x) (VList []) = Err EValue /\ json_prepass (fun _ => None) (VDict []) = Err EValue /\
+  not_from_numbers (fun _ => false) (VInt 3) = Err EValue /\ not_from_booleans (VList [VBool true]) = Err EValue /\
+  effect_validator (VStr k_Type) = Err EValue.
+Proof. repeat split; reflexivity. Qed.
+
+(* each validator ACCEPTS, UNCHANGED, WHAT IT PRODUCED -- unconditionally for all of them; the generic casting under the
+   hypothesis that [cast] is idempotent, and not without it (C19_generic_casting_needs_idempotent_cast) *)
+Theorem C19_validators_accept_own_output :
+  forall (strict : bool) (modelled : list str) (cast : value -> value) (loads : str -> option value) (float_ok : str -> bool)
+         (v w : value),
+    (semi_strict_bool v = Ok w -> semi_strict_bool w = Ok w) /\
+    (validate_binary v = Ok w -> validate_binary w = Ok w) /\
+    (remove_colon v = Ok w -> remove_colon w = Ok w) /\
+    (tag_coerce v = Ok w -> tag_coerce w = Ok w) /\
+    (effect_validator v = Ok w -> effect_validator w = Ok w) /\
+    (json_prepass loads v = Ok w -> json_prepass loads w = Ok w) /\
+    ((forall x, cast (cast x) = cast x) -> generic_casting cast v = Ok w -> generic_casting cast w = Ok w) /\
+    (check_type strict modelled v = Ok w -> w = v) /\ (check_fn_dict v = Ok w -> w = v) /\
+    (not_from_numbers float_ok v = Ok w -> w = v) /\ (not_from_booleans v = Ok w -> w = v).
+Proof.
+  intros strict modelled cast loads float_ok v w.
+  split; [apply semi_strict_bool_idem|]. split; [apply validate_binary_idem|]. split; [apply remove_colon_idem|].
+  split; [apply tag_coerce_idem|]. split; [apply effect_validator_idem|]. split; [apply json_prepass_idem|].
+  split; [apply generic_casting_idem|]. apply judges_return_argument.
+Qed.
+Print Assumptions C19_validators_accept_own_output.
+Theorem C19_generic_casting_needs_idempotent_cast :
+  exists cast v w, generic_casting cast v = Ok w /\ generic_casting cast w <> Ok w.
+Proof. exact generic_casting_idem_refuted. Qed.
+Print Assumptions C19_generic_casting_needs_idempotent_cast.
+(* the hypotheses are satisfiable non-trivially: text that decodes to a LIST CONTAINING JSON TEXT -- the pre-pass yields the list,
+   and on the list it yields the list again, the inner text still text; "TRUE" -> true -> true; "aLLOW" -> "Allow" -> "Allow";
+   a colon key -> stripped -> the same *)
+Example C19_ex_accept_own_output :
+  let loads := fun s : str => if str_eqb s [91;93]%N then Some (VList [VStr [123;125]%N]) else
+                               if str_eqb s [123;125]%N then Some (VDict []) else None in
+  json_prepass loads (VStr [91;93]%N) = Ok (VList [VStr [123;125]%N]) /\
+  json_prepass loads (VList [VStr [123;125]%N]) = Ok (VList [VStr [123;125]%N]) /\
+  json_prepass loads (VStr [123;125]%N) = Err EValue /\
+  semi_strict_bool (VStr [84;82;85;69]%N) = Ok (VBool true) /\ semi_strict_bool (VBool true) = Ok (VBool true) /\
+  effect_validator (VStr [97;76;76;79;87]%N) = Ok (VStr S_Allow) /\ effect_validator (VStr S_Allow) = Ok (VStr S_Allow) /\
+  tag_coerce (VBool true) = Ok (VStr S_True) /\ tag_coerce (VStr S_True) = Ok (VStr S_True) /\
+  remove_colon (VDict [(k_FAV_colon, VInt 1)]) = Ok (VDict [(k_FAV, VInt 1)]) /\
+  remove_colon (VDict [(k_FAV, VInt 1)]) = Ok (VDict [(k_FAV, VInt 1)]).
+Proof. repeat split; vm_compute; reflexivity. Qed.
+
+(* remove_colon: the result has no ':' in a key and no key twice (always); the value under a key is that of the LAST input entry
+   whose key, colons removed, is that key, at the POSITION of the first; appending an entry changes no other key; identity on an
+   object with distinct colon-free keys *)
+Theorem C19_remove_colon_laws :
+  (forall d, NoDup (keys (rc_dict d)) /\ keys_colon_free (rc_dict d) = true) /\
+  (forall d, remove_colon (VDict d) = Ok (VDict (rc_dict d))) /\
+  (forall d k, lookup k (rc_dict d) = lookup k (rev (stripped d))) /\
+  (forall d k x,
+     rc_dict (d ++ [(k, x)]) = dset (strip_colons k) x (rc_dict d) /\
+     keys (rc_dict (d ++ [(k, x)])) =
+       (if mem_str (strip_colons k) (keys (rc_dict d)) then keys (rc_dict d) else keys (rc_dict d) ++ [strip_colons k]) /\
+     lookup (strip_colons k) (rc_dict (d ++ [(k, x)])) = Some x /\
+     (forall k', k' <> strip_colons k -> lookup k' (rc_dict (d ++ [(k, x)])) = lookup k' (rc_dict d))) /\
+  (forall d, NoDup (keys d) -> keys_colon_free d = true -> remove_colon (VDict d) = Ok (VDict d)) /\
+  (forall v, (forall d, v <> VDict d) -> remove_colon v = Ok v).
+Proof.
+  split; [exact rc_dict_keys|]. split; [exact remove_colon_dict|]. split; [exact rc_dict_lookup|].
+  split; [exact rc_dict_snoc|]. split; [exact remove_colon_identity | exact remove_colon_non_dict].
+Qed.
+Print Assumptions C19_remove_colon_laws.
+Theorem C19_remove_colon_identity_needs_distinct_keys :
+  exists d, keys_colon_free d = true /\ remove_colon (VDict d) <> Ok (VDict d).
+Proof. exact remove_colon_identity_needs_distinct_keys. Qed.
+Print Assumptions C19_remove_colon_identity_needs_distinct_keys.
+(* "ForAllValues:StringLike" and "ForAllValuesStringLike" both present: ONE key, in the place of the first, with the value of the
+   second -- whichever the order; StringEquals beside them is untouched *)
+Example C19_ex_remove_colon_collision :
+  remove_colon (VDict [(k_FAV_colon, VInt 1); (k_StringEquals, VInt 3); (k_FAV, VInt 2)]) =
+    Ok (VDict [(k_FAV, VInt 2); (k_StringEquals, VInt 3)]) /\
+  remove_colon (VDict [(k_FAV, VInt 2); (k_StringEquals, VInt 3); (k_FAV_colon, VInt 1)]) =
+    Ok (VDict [(k_FAV, VInt 1); (k_StringEquals, VInt 3)]) /\
+  NoDup (keys [(k_FAV, VInt 2); (k_StringEquals, VInt 3)]) /\ keys_colon_free [(k_FAV, VInt 2); (k_StringEquals, VInt 3)] = true.
+Proof.
+  split; [vm_compute; reflexivity|]. split; [vm_compute; reflexivity|]. split; [|reflexivity].
+  constructor; [intros [C | []]; discriminate | constructor; [intros [] | constructor]].
+Qed.
+
+(* semi_strict_bool: exactly the booleans and the ASCII-case-insensitive texts true / false; the result is a boolean *)
+Theorem C19_semi_strict_bool_exact :
+  forall v w, semi_strict_bool v = Ok w <->
+    (exists b, v = VBool b /\ w = VBool b) \/
+    (exists s, v = VStr s /\ ((lower s = S_true /\ w = VBool true) \/ (lower s = S_false /\ w = VBool false))).
+Proof. exact semi_strict_bool_exact. Qed.
+Print Assumptions C19_semi_strict_bool_exact.
+(* "False" accepted; 0, 1, "yes", null and "falſe" (long s, U+017F: Python's lower() leaves it, so does the model) refused *)
+Example C19_ex_semi_strict_bool :
+  semi_strict_bool (VStr [70;97;108;115;101]%N) = Ok (VBool false) /\
+  semi_strict_bool (VInt 0) = Err EValue /\ semi_strict_bool (VInt 1) = Err EValue /\
+  semi_strict_bool (VStr [121;101;115]%N) = Err EValue /\ semi_strict_bool VNull = Err EValue /\
+  semi_strict_bool (VStr [102;97;108;383;101]%N) = Err EValue /\ semi_strict_bool (VStr [70;65;76;383;69]%N) = Err EValue.
+Proof. repeat split; vm_compute; reflexivity. Qed.
+
+(* the effect validator: exactly the case-insensitive spellings of allow / deny, answered capitalised; other values untouched *)
+Theorem C19_effect_exact :
+  (forall s w, effect_validator (VStr s) = Ok w <->
+     (lower s = S_allow_l /\ w = VStr S_Allow) \/ (lower s = S_deny_l /\ w = VStr S_Deny)) /\
+  (forall v, (forall s, v <> VStr s) -> effect_validator v = Ok v).
+Proof. split; [exact effect_validator_exact | exact effect_validator_non_text]. Qed.
+Print Assumptions C19_effect_exact.
+Example C19_ex_effect :
+  effect_validator (VStr [68;69;78;89]%N) = Ok (VStr S_Deny) /\ lower [68;69;78;89]%N = S_deny_l /\
+  effect_validator (VStr [65;108;108;111;119;101;100]%N) = Err EValue /\                 (* "Allowed" *)
+  effect_validator (VStr [256;108;108;111;119]%N) = Err EValue /\                        (* A-macron + "llow" *)
+  effect_validator (VDict [(k_r, VInt 1)]) = Ok (VDict [(k_r, VInt 1)]).
+Proof. repeat split; vm_compute; reflexivity. Qed.
+
+(* check_type: refuses exactly (a) a modelled type string when strict and (b) anything that is neither text nor null -- the
+   number 18, a list of modelled strings; never changes the value; with strict off every text passes *)
+Theorem C19_check_type_exact :
+  (forall strict modelled v e, check_type strict modelled v = Err e <->
+     e = EValue /\ ((exists s, v = VStr s /\ mem_str s modelled = true /\ strict = true) \/
+                    (v <> VNull /\ forall s, v <> VStr s))) /\
+  (forall strict modelled v w, check_type strict modelled v = Ok w -> w = v) /\
+  (forall modelled s, check_type false modelled (VStr s) = Ok (VStr s)).
+Proof. split; [exact check_type_exact|]. split; [exact check_type_unchanged | exact check_type_lax_accepts]. Qed.
+Print Assumptions C19_check_type_exact.
+Example C19_ex_check_type :
+  check_type true [k_Type] (VStr k_Type) = Err EValue /\ check_type false [k_Type] (VStr k_Type) = Ok (VStr k_Type) /\
+  check_type true [k_Type] (VStr k_r) = Ok (VStr k_r) /\ check_type true [k_Type] VNull = Ok VNull /\
+  check_type false [k_Type] (VInt 18) = Err EValue /\ check_type false [k_Type] (VList [VStr k_Type]) = Err EValue.
+Proof. repeat split; reflexivity. Qed.
+
+(* Binary: decoding inverts the encoder (Resolver/FnAlgebra.b64_roundtrip, the C01 law); text of alphabet characters only
+   decodes exactly when its length is a multiple of four, so length 4k+1 is refused *)
+Theorem C19_binary_roundtrip :
+  (forall bs, Forall (fun b : N => (b < 256)%N) bs -> validate_binary (VStr (Resolver.Text.b64encode bs)) = Ok (VBytes bs)) /\
+  (forall s, b64_plain s = true ->
+     ((exists bs, validate_binary (VStr s) = Ok (VBytes bs)) <-> exists n : N, N.of_nat (length s) = (4 * n)%N)) /\
+  (forall (s : str) (k : N), b64_plain s = true -> N.of_nat (length s) = (4 * k + 1)%N -> validate_binary (VStr s) = Err EValue).
+Proof. split; [exact validate_binary_roundtrip|]. split; [exact validate_binary_plain_iff | exact validate_binary_plain_len1_refused]. Qed.
+Print Assumptions C19_binary_roundtrip.
+(* "QUJD" = ABC; an embedded blank is discarded ("QU JD"); missing padding is refused ("QUI", "QQ") and complete padding accepted
+   ("QUI=", "QQ=="); one data character ("A") and five ("QUJDR") are refused; a complete pad ENDS the input ("QQ==QUJD" = A);
+   a stray '=' before two data characters is skipped ("Q=UJD" = ABC); non-ASCII text is refused; bytes pass as they are *)
+Example C19_ex_binary :
+  validate_binary (VStr [81;85;74;68]%N) = Ok (VBytes [65;66;67]%N) /\ Resolver.Text.b64encode [65;66;67]%N = [81;85;74;68]%N /\
+  validate_binary (VStr [81;85;32;74;68]%N) = Ok (VBytes [65;66;67]%N) /\
+  validate_binary (VStr [81;85;73]%N) = Err EValue /\ validate_binary (VStr [81;81]%N) = Err EValue /\
+  validate_binary (VStr [81;85;73;61]%N) = Ok (VBytes [65;66]%N) /\ validate_binary (VStr [81;81;61;61]%N) = Ok (VBytes [65]%N) /\
+  validate_binary (VStr [65]%N) = Err EValue /\ b64_plain [65]%N = true /\
+  validate_binary (VStr [81;85;74;68;82]%N) = Err EValue /\
+  validate_binary (VStr [81;81;61;61;81;85;74;68]%N) = Ok (VBytes [65]%N) /\
+  validate_binary (VStr [81;61;85;74;68]%N) = Ok (VBytes [65;66;67]%N) /\
+  validate_binary (VStr [81;85;74;68;233]%N) = Err EValue /\
+  validate_binary (VBytes [1;2]%N) = Ok (VBytes [1;2]%N).
+Proof. repeat split; vm_compute; reflexivity. Qed.
+
+(* what Binary decodes are BYTES (< 256), hence the text form of its own output -- the base64 of the decoded bytes, which is what a
+   dumped Binary is -- is accepted and decodes to the same bytes, whatever blanks, strays or trailing text the original had *)
+Theorem C19_binary_reencode :
+  (forall s bs, b64decode s = Some bs -> Forall (fun b : N => (b < 256)%N) bs) /\
+  (forall v bs, (forall bs', v <> VBytes bs') ->
+     validate_binary v = Ok (VBytes bs) -> validate_binary (VStr (Resolver.Text.b64encode bs)) = Ok (VBytes bs)).
+Proof. split; [exact b64decode_bytes | exact validate_binary_reencode]. Qed.
+Print Assumptions C19_binary_reencode.
+(* "QQ==QUJD" decodes to A; A encodes to "QQ==": the text changes, the bytes do not *)
+Example C19_ex_binary_reencode :
+  validate_binary (VStr [81;81;61;61;81;85;74;68]%N) = Ok (VBytes [65]%N) /\
+  Resolver.Text.b64encode [65]%N = [81;81;61;61]%N /\ validate_binary (VStr [81;81;61;61]%N) = Ok (VBytes [65]%N).
 Proof. repeat split; vm_compute; reflexivity. Qed.
